@@ -199,9 +199,18 @@ impl From<&IPFix> for NetflowCommon {
 
         for flowset in &value.flowsets {
             if let IPFixFlowSetBody::Data(data) = &flowset.body {
+                // The IPFIX decoder emits one single-entry map per field, keyed by the
+                // field's index in the template; index 0 starts a new record.
+                let mut records: Vec<BTreeMap<IPFixField, FieldValue>> = vec![];
                 for data_field in &data.fields {
-                    let value_map: BTreeMap<IPFixField, FieldValue> =
-                        data_field.values().cloned().collect();
+                    if data_field.contains_key(&0) || records.is_empty() {
+                        records.push(BTreeMap::new());
+                    }
+                    if let Some(record) = records.last_mut() {
+                        record.extend(data_field.values().cloned());
+                    }
+                }
+                for value_map in records {
                     flowsets.push(NetflowCommonFlowSet {
                         src_addr: value_map
                             .get(&IPFixField::SourceIpv4address)
